@@ -367,6 +367,125 @@ example : Spec.Bind.named (exFields.headD dupTagField) .json = some (kA, false) 
     preFieldS false exReq (exFields.headD dupTagField) = .ok (.one (.i 5)) ∧
     Spec.Bind.jsonCarries exReq kA = true := by decide
 
+/-! ## entry points and their decoder caches: state carried across calls on one binder
+
+`defaultBinder` has six entry points that reach the field decoders (`Bind`, `BindAndValidate`, `BindPath`,
+`BindForm`, `BindQuery`, `BindHeader`) and five caches keyed by the struct type alone.  The model
+(`TagBinder`, Model/Bind.lean) keeps the five caches apart and is run, sequence by sequence, against the real
+binder (`bindseq` cases of the harness). -/
+
+def apiGoName : Api → String
+  | .bind => "Bind" | .validate => "BindAndValidate" | .path => "BindPath" | .form => "BindForm"
+  | .query => "BindQuery" | .header => "BindHeader"
+
+def slotGoField : Slot → String
+  | .all => "decoderCache" | .query => "queryDecoderCache" | .header => "headerDecoderCache"
+  | .form => "formDecoderCache" | .path => "pathDecoderCache"
+
+/-- the Go string of a `tag` argument -/
+def tagText : Option Src → String
+  | none => ""
+  | some s => s.name
+
+/-- `BindAndValidate` goes through `bindTagWithValidate`, the rest through `bindTag` -/
+def apiHelper : Api → String
+  | .validate => "bindTagWithValidate"
+  | _ => "bindTag"
+
+def allApis : List Api := [.bind, .validate, .path, .form, .query, .header]
+
+/-- the entry-point part of the model agrees with `binding/default.go` as it is now: the tag each exported
+method passes on, the cache `tagCache` selects for it, and the cache discipline of `bindTag` /
+`bindTagWithValidate` — the cache comes from `tagCache(tag)`, the decoder is loaded from and stored into
+that same cache and nothing else mutates a cache, `GetReqDecoder` gets the same tag, and only `bindTag`
+makes the body pre-bind depend on the tag (`len(tag) == 0`). -/
+theorem entry_points_match_gen :
+    Gen.Bind.entryPoints = allApis.map (fun a => (apiGoName a, apiHelper a, tagText a.byTag)) ∧
+    (∀ a ∈ allApis, ((Gen.Bind.tagCacheTable.lookup (tagText a.byTag)).orElse
+        (fun _ => Gen.Bind.tagCacheTable.lookup "*")) = some (slotGoField (tagCache a.byTag))) ∧
+    Gen.Bind.cacheUse = [("bindTag", "b.tagCache(tag)", ["cache"], ["Store:cache"], "tag", "len(tag) == 0"),
+                         ("bindTagWithValidate", "b.tagCache(tag)", ["cache"], ["Store:cache"], "tag", "")] := by decide
+
+/-- **Every entry point is a function of the type and the request alone**: through a fresh binder, any
+sequence of calls of any entry points on any types gives, call by call, the result of the cache-free
+function `bindBy` — in particular a `BindQuery`/`BindHeader`/`BindForm`/`BindPath` of a type never changes
+what a later `Bind` of that type returns, and vice versa. -/
+theorem entry_points_pure (ops : List (Api × List Field × Req)) :
+    ({} : TagBinder).run ops = ops.map (fun (o : Api × List Field × Req) => bindBy o.1.byTag o.2.1 o.2.2) :=
+  TagBinder.run_pure _ TagBinder.empty_wf ops
+
+/-- the same from any binder state reachable by calls: each cached decoder was built with the tag of the
+cache it sits in (`TagBinder.WF`), and every call keeps it so -/
+theorem entry_point_keeps_caches_wf (b : TagBinder) (hb : b.WF) (a : Api) (t : List Field) (r : Req) :
+    (b.call a t r).1 = bindBy a.byTag t r ∧ (b.call a t r).2.WF :=
+  TagBinder.call_pure b hb a t r
+
+/-- **`Bind` after anything.**  Whatever was called before on the binder, `Bind` and `BindAndValidate`
+(types without validation tags) return what `bind` computes: the function the theorems above
+(`picks_first_present`, `required_is_error`, `bind_refines_spec_partial`, …) are about. -/
+theorem bind_unaffected_by_earlier_calls (ops : List (Api × List Field × Req)) (a : Api) (ha : a.byTag = none)
+    (t : List Field) (r : Req) :
+    (({} : TagBinder).run (ops ++ [(a, t, r)])).getLast? = some (Hertz.Bind.bind t r) := by
+  rw [entry_points_pure]; simp [ha, bindBy_none]
+
+/-- … and therefore the declared priority, outside the known-finding classes -/
+theorem bind_after_any_calls_refines_spec_partial (ops : List (Api × List Field × Req)) (a : Api) (ha : a.byTag = none)
+    (t : List Field) (r : Req) (hwf : ∀ f ∈ t, FieldWF f) (h : ∀ f ∈ t, Spec.Bind.fieldClass f r = "") :
+    (({} : TagBinder).run (ops ++ [(a, t, r)])).getLast? = some (Spec.Bind.specBind t r) := by
+  rw [bind_unaffected_by_earlier_calls ops a ha, bind_refines t r hwf h]
+
+/-- **The tag-restricted entry points** bind every field from their one source, under the name its tag of
+that source gives (Go name if there is none), `required` being an error, everything else left zero —
+for all field lists and requests, no exclusions (`Spec.Bind.specFieldsBy`). -/
+theorem tag_entry_points_refine_spec (a : Api) (s : Src) (ha : a.byTag = some s) (fields : List Field) (r : Req) :
+    bindBy a.byTag fields r = Spec.Bind.specBindBy (some s) fields r := by
+  rw [ha]
+  exact bindBy_refines s (by cases a <;> simp [Api.byTag] at ha <;> (subst ha; decide)) fields r
+
+/-- `P string path:"p"`, `Q int query:"q,required"`, `H string header:"X-H"` -/
+def seqType : List Field :=
+  [{ name := [80], ty := { base := .str }, tags := [(.path, [112])] },
+   { name := [81], ty := tyInt, tags := [(.query, [113] ++ [44] ++ requiredOpt)] },
+   { name := [72], ty := { base := .str }, tags := [(.header, [88, 45, 72])] }]
+
+/-- path `p=p7`, query `q=11`, header `X-H: hv` -/
+def seqReq : Req := { params := [([112], [112, 55])], query := [([113], [49, 49])], headers := [([88, 45, 72], [104, 118])] }
+
+set_option maxRecDepth 100000 in
+/-- entry_points_pure (non-vacuity): BindQuery, Bind, BindHeader, Bind of ONE type on one binder; then a
+Bind without the required query value -/
+example :
+    ({} : TagBinder).run [(.query, seqType, seqReq), (.bind, seqType, seqReq), (.header, seqType, seqReq),
+                           (.validate, seqType, seqReq), (.bind, seqType, { seqReq with query := [] })] =
+      [.ok [.unset, .one (.i 11), .unset],
+       .ok [.one (.s [112, 55]), .one (.i 11), .one (.s [104, 118])],
+       .ok [.unset, .unset, .one (.s [104, 118])],
+       .ok [.one (.s [112, 55]), .one (.i 11), .one (.s [104, 118])],
+       .err .required] := by decide
+
+set_option maxRecDepth 100000 in
+/-- The hypothesis `WF` of `entry_point_keeps_caches_wf` cannot be dropped: a binder whose `Bind` cache holds,
+for `seqType`, the decoder built for `BindQuery` (one cache shared by two entry points) answers `Bind`
+from the query alone and no longer sees the missing required value. -/
+theorem shared_cache_breaks_bind :
+    let b := ({} : TagBinder).store .all seqType (compileBy (some .query) seqType)
+    ¬ b.WF ∧
+    (b.call .bind seqType seqReq).1 = .ok [.unset, .one (.i 11), .unset] ∧
+    Hertz.Bind.bind seqType seqReq = .ok [.one (.s [112, 55]), .one (.i 11), .one (.s [104, 118])] ∧
+    Hertz.Bind.bind seqType {} = .err .required ∧
+    (({} : TagBinder).store .all seqType (compileBy (some .header) seqType) |>.call .bind seqType {}).1 = .ok [.unset, .unset, .unset] := by
+  refine ⟨?_, by decide, by decide, by decide, by decide⟩
+  intro h
+  have := h .all seqType (compileBy (some .query) seqType) (by simp [TagBinder.store])
+  revert this
+  decide
+
+set_option maxRecDepth 100000 in
+/-- tag_entry_points_refine_spec (non-vacuity): BindHeader on the example type -/
+example : Api.header.byTag = some .header ∧
+    Spec.Bind.specBindBy (some .header) seqType seqReq = .ok [.unset, .unset, .one (.s [104, 118])] ∧
+    Spec.Bind.specBindBy (some .query) seqType {} = .err .required := by decide
+
 /-
 TODO-OPEN
   `bind_refines_spec` is now PROVED as `bind_refines_spec_partial`: for all field lists and requests,
@@ -380,7 +499,8 @@ TODO-OPEN
   `dash-only-default`; the classifier `Spec.Bind.clsDashOnly` does not recognise it because it looks at
   shadowed tags); `dash_name_witness` is a modelling artefact (`reflect.StructOf` rejects the name `-`).
   What remains open (not proved; sampled by the driver on the implementation's output):
-  * the per-type decoder cache of the real code (a `sync.Map`) and concurrent binds;
+  * the per-type decoder caches of the real code (five `sync.Map`s; the Lean caches are lists, kept apart per entry
+    point as `tagCache` does: `entry_points_pure`, tied to the source by `entry_points_match_gen`) and concurrent binds;
   * outcomes `unk` are equal on both sides by the theorem, but what the real code does there (floats outside
     the canonical grammar, JSON texts outside the small grammar) is only copied from the implementation;
   * nested structs, arrays, maps, `raw_body`, `file_name`, custom decoders: outside the model.
